@@ -19,6 +19,17 @@ Import ListNotations.
 Open Scope char_scope.
 
 Definition nonempty (s : str) : bool := match s with [] => false | _ => true end.
+
+(** splitting in linear time ([PyStr.split_c] reverses every field with the standard-library
+    [rev], which is quadratic once extracted: a 300 kB column table took minutes) *)
+Fixpoint split_tr (ch : ascii) (cur : str) (acc : list str) (s : str) : list str :=
+  match s with
+  | [] => rev_append (rev_append cur [] :: acc) []
+  | c :: r => if Ascii.eqb c ch then split_tr ch [] (rev_append cur [] :: acc) r
+              else split_tr ch (c :: cur) acc r
+  end.
+Definition split_c (ch : ascii) (s : str) : list str := split_tr ch [] [] s.
+Definition fields (s : str) : list str := split_c "009" s.
 Definition ints (s : str) : list Z := map z_of_str (filter nonempty (split_c " " s)).
 Fixpoint qs (l : list Z) : list Q :=
   match l with n :: d :: r => (n # Z.to_pos d) :: qs r | _ => [] end.
@@ -43,6 +54,23 @@ Definition show_optpos (o : option positive) : str :=
 Fixpoint join_with (sep : str) (l : list str) : str :=
   match l with [] => [] | [a] => a | a :: r => a ++ sep ++ join_with sep r end.
 
+(** Exact rescaling.  The doubles of one case are dyadic rationals with different
+    denominators; [Q] arithmetic on Coq's unary-recursive [positive] then spends its time
+    multiplying denominators.  The driver multiplies every coordinate, elevation and distance
+    of a [geo]/[trk] case by the largest denominator [D] of the geometry (exact; all become
+    integers when the denominators are powers of two) and divides printed coordinates by [D]
+    again.  Every modelled function is homogeneous in the lengths (comparisons, differences,
+    the factor 1/2, the relative tolerance of [column_track]), so this is the same computation
+    on the same mesh measured in units of 1/D. *)
+Definition scaleq (D : positive) (q : Q) : Q := Qred (Qmult q (Zpos D # 1)).
+Definition unscaleq (D : positive) (q : Q) : Q := Qred (Qmult q (1 # D)).
+Definition scale_pt D (p : pt) : pt := (scaleq D (fst p), scaleq D (snd p)).
+Definition unscale_pt D (p : pt) : pt := (unscaleq D (fst p), unscaleq D (snd p)).
+Definition scale_rect D (r : rect) : rect := (scale_pt D (fst r), scale_pt D (snd r)).
+Definition unscale_rect D (r : rect) : rect := (unscale_pt D (fst r), unscale_pt D (snd r)).
+Definition maxden_pts (l : list pt) (d : positive) : positive :=
+  fold_left (fun d p => Pos.max (Pos.max d (Qden (fst p))) (Qden (snd p))) l d.
+
 Record coldata := mkCol { cd_centre : pt; cd_surface : Q; cd_nbrs : list positive;
                           cd_poly : list pt; cd_bbox : rect }.
 Definition parse_col (s : str) : coldata :=
@@ -52,6 +80,12 @@ Definition parse_col (s : str) : coldata :=
       mkCol (parse_pt c) (parse_q sf) (parse_ids nb) poly (bounds_of_points poly)
   | _ => mkCol zero_pt 0%Q [] [] (zero_pt, zero_pt)
   end.
+
+Definition scale_col D (c : coldata) : coldata :=
+  mkCol (scale_pt D (cd_centre c)) (scaleq D (cd_surface c)) (cd_nbrs c)
+        (map (scale_pt D) (cd_poly c)) (scale_rect D (cd_bbox c)).
+Definition maxden_col (d : positive) (c : coldata) : positive :=
+  maxden_pts (cd_centre c :: cd_poly c) (Pos.max d (Qden (cd_surface c))).
 
 Definition colmap := PositiveMap.t coldata.
 Fixpoint mk_map (i : positive) (l : list coldata) (m : colmap) : colmap :=
@@ -78,13 +112,20 @@ Definition parse_bounds (s : str) : option bounds_arg :=
   | _ => None
   end.
 
-Definition show_leaf (o : option qtree) : str :=
+Definition show_leaf (D : positive) (o : option qtree) : str :=
   match o with
   | None => s2l "N"
-  | Some t => show_rect (qbounds t) ++ s2l ":" ++ show_ids (qelements t)
+  | Some t => show_rect (unscale_rect D (qbounds t)) ++ s2l ":" ++ show_ids (qelements t)
+  end.
+Definition scale_bounds D (b : option bounds_arg) : option bounds_arg :=
+  match b with
+  | None => None
+  | Some (BRect r) => Some (BRect (scale_rect D r))
+  | Some (BPoly p) => Some (BPoly (map (scale_pt D) p))
   end.
 
 Section Run.
+  Variable D : positive.
   Variable m : colmap.
   Variable columnlist : list positive.
   Variable layers : list layer.
@@ -94,24 +135,27 @@ Section Run.
   Let nbrs c := cd_nbrs (getc m c).
   Let bbox c := cd_bbox (getc m c).
   Let surface c := cd_surface (getc m c).
+  Let ppt (s : str) : pt := scale_pt D (parse_pt s).
+  Let pq (s : str) : Q := scaleq D (parse_q s).
 
   Definition run_query (s : str) : str :=
     match split_c ";" s with
     | [k; p] =>
-        if str_eqb k (s2l "L") then show_leaf (leaf qt (parse_pt p))
+        if str_eqb k (s2l "L") then show_leaf D (leaf qt (ppt p))
         else if str_eqb k (s2l "E") then
-               join_sp (map show_pos (filter (fun c => contains_point polygon c (parse_pt p)) columnlist))
+               let pp := ppt p in
+               join_sp (map show_pos (filter (fun c => contains_point polygon c pp) columnlist))
         else s2l "BADQ"
     | [k; p; g; cs; bd; q] =>
         if str_eqb k (s2l "C") then
-          show_optpos (column_containing_point polygon centre nbrs bbox columnlist (parse_pt p)
-                         (parse_optids cs) (parse_optid g) (parse_bounds bd)
+          show_optpos (column_containing_point polygon centre nbrs bbox columnlist (ppt p)
+                         (parse_optids cs) (parse_optid g) (scale_bounds D (parse_bounds bd))
                          (if str_eqb q (s2l "1") then Some qt else None))
         else s2l "BADQ"
     | [k; p; z; q] =>
         if str_eqb k (s2l "B") then
-          match block_containing_point polygon centre nbrs bbox surface columnlist layers (parse_pt p)
-                  (parse_q z) (if str_eqb q (s2l "1") then Some qt else None) with
+          match block_containing_point polygon centre nbrs bbox surface columnlist layers (ppt p)
+                  (pq z) (if str_eqb q (s2l "1") then Some qt else None) with
           | Some (li, c) => show_nat li ++ sp ++ show_pos c
           | None => s2l "N"
           end
@@ -119,23 +163,29 @@ Section Run.
     | [k; li; c; p; z] =>
         if str_eqb k (s2l "X") then
           show_bool (block_contains_point polygon surface columnlist layers (nat_of_str li)
-                       (Z.to_pos (z_of_str c)) (parse_pt p) (parse_q z))
+                       (Z.to_pos (z_of_str c)) (ppt p) (pq z))
         else s2l "BADQ"
     | _ => s2l "BADQ"
     end.
 End Run.
 
 Definition run_geo (cols lays qspec queries : str) : str :=
-  let cl := map parse_col (filter nonempty (split_c "|" cols)) in
-  let m := mk_map 1%positive cl (PositiveMap.empty _) in
-  let columnlist := ids_from 1%positive cl in
-  let layers := parse_layers lays in
+  let cl0 := map parse_col (filter nonempty (split_c "|" cols)) in
+  let layers0 := parse_layers lays in
   match split_c ";" qspec with
   | [rb; es; fu] =>
+      let rb0 := parse_rect rb in
+      let D := fold_left maxden_col cl0
+                 (fold_left (fun d l => Pos.max (Pos.max d (Qden (lbottom l))) (Qden (ltop l))) layers0
+                            (maxden_pts [fst rb0; snd rb0] 1%positive)) in
+      let cl := map (scale_col D) cl0 in
+      let layers := map (fun l => mkLayer (scaleq D (lbottom l)) (scaleq D (ltop l))) layers0 in
+      let m := mk_map 1%positive cl (PositiveMap.empty _) in
+      let columnlist := ids_from 1%positive cl in
       let fuel := nat_of_str fu in
-      let qt := build (fun c => cd_centre (getc m c)) fuel (parse_rect rb) (parse_ids es) in
+      let qt := build (fun c => cd_centre (getc m c)) fuel (scale_rect D rb0) (parse_ids es) in
       s2l "D " ++ show_nat (qdepth qt) ++ sp ++ show_bool (qdepth qt <? fuel)%nat ++ s2l "|" ++
-      join_with (s2l "|") (map (run_query m columnlist layers qt) (filter nonempty (split_c "|" queries)))
+      join_with (s2l "|") (map (run_query D m columnlist layers qt) (filter nonempty (split_c "|" queries)))
   | _ => s2l "BADCASE"
   end.
 
@@ -159,18 +209,22 @@ Fixpoint mk_tmap (i : positive) (l : list trkdata) (m : PositiveMap.t trkdata) :
 Definition gett (m : PositiveMap.t trkdata) (c : positive) : trkdata :=
   match PositiveMap.find c m with Some d => d | None => mkTrk false [] 0%Q end.
 
-Definition show_seg (s : seg) : str :=
-  show_pos (seg_col s) ++ s2l ":" ++ show_pt (seg_in s) ++ s2l ":" ++ show_pt (seg_out s).
+Definition show_seg (D : positive) (s : seg) : str :=
+  show_pos (seg_col s) ++ s2l ":" ++ show_pt (unscale_pt D (seg_in s)) ++ s2l ":" ++ show_pt (unscale_pt D (seg_out s)).
 
 Definition run_trk (cols line percol dtab : str) : str :=
-  let cl := map parse_col (filter nonempty (split_c "|" cols)) in
+  let cl0 := map parse_col (filter nonempty (split_c "|" cols)) in
+  let D := fold_left maxden_col cl0 1%positive in
+  let cl := map (scale_col D) cl0 in
   let m := mk_map 1%positive cl (PositiveMap.empty _) in
   let columnlist := ids_from 1%positive cl in
-  let tm := mk_tmap 1%positive (map parse_trk (filter nonempty (split_c "|" percol))) (PositiveMap.empty _) in
-  let tbl := parse_dist dtab in
-  let ln := parse_rect line in
+  let tm := mk_tmap 1%positive
+              (map (fun t => mkTrk (td_lir t) (map (scale_pt D) (td_inters t)) (scaleq D (td_maxside t)))
+                   (map parse_trk (filter nonempty (split_c "|" percol)))) (PositiveMap.empty _) in
+  let tbl := map (fun e => (scale_pt D (fst e), scaleq D (snd e))) (parse_dist dtab) in
+  let ln := scale_rect D (parse_rect line) in
   join_with (s2l "|")
-    (map show_seg
+    (map (show_seg D)
          (column_track (fun c => cd_poly (getc m c))
                        (fun c => td_lir (gett tm c)) (fun c => td_inters (gett tm c))
                        (lookup_dist tbl) (fun c => td_maxside (gett tm c)) track_tol
